@@ -151,6 +151,21 @@ def _use_everything(rec, commands):
                     call(repr, u.value[2])
                 common.lib_unmarshal(m.value[:-2] + b'\xce')
                 n += 3
+            # the application fills in the tables of the frame it built
+            # (d.arguments['x-message-ttl'] = 60000) and sends it: the
+            # object is its own, the next object's defaults are not
+            filled = 0
+            for a in getattr(cls, '__slots__', ()):
+                v = getattr(o, a, None)
+                if type(v) is dict:
+                    v['x-vmon-filled-in'] = 60000
+                    filled += 1
+                elif type(v) is list:
+                    v.append('vmon-filled-in')
+                    filled += 1
+            if filled:
+                common.lib_marshal(o, 1)
+                rec.count('tables_of_built_frames_filled_in', filled)
         unchanged('ordinary use of %s' % cls.__qualname__)
     # decodes that fail at the k-th argument (payload cut inside the
     # arguments, envelope consistent), for every class with arguments
